@@ -199,12 +199,69 @@ func rtypeArg(v Value) types.Type {
 	panic(abort("reflect model: not a type"))
 }
 
+// structFieldRec builds the reflect.StructField value of field i of st (index path idx).
+func (in *Interp) structFieldRec(st *types.Struct, i int, idx []int, sfType *types.Struct) Struct {
+	f := st.Field(i)
+	idxVals := make([]Value, len(idx))
+	for k, n := range idx {
+		idxVals[k] = mkBV(64, uint64(n))
+	}
+	pkgPath := ""
+	if !f.Exported() && f.Pkg() != nil {
+		pkgPath = f.Pkg().Path()
+	}
+	rec := make(Struct, sfType.NumFields())
+	for k := 0; k < sfType.NumFields(); k++ {
+		switch sfType.Field(k).Name() {
+		case "Name":
+			rec[k] = mkStr(f.Name())
+		case "PkgPath":
+			rec[k] = mkStr(pkgPath)
+		case "Type":
+			rec[k] = in.rtypeOf(f.Type())
+		case "Tag":
+			rec[k] = mkStr(st.Tag(i))
+		case "Offset":
+			rec[k] = mkBV(64, 0)
+		case "Index":
+			rec[k] = Slice{A: idxVals}
+		case "Anonymous":
+			rec[k] = mkBool(f.Embedded())
+		default:
+			rec[k] = in.zero(sfType.Field(k).Type())
+		}
+	}
+	return rec
+}
+
+// fieldVisible: Go's selector rules decide which promoted fields reflect.VisibleFields reports: a field is visible iff
+// selecting its name on the top-level struct resolves to exactly this field (not hidden by a shallower field of the
+// same name, not ambiguous between two embedded structs).
+func fieldVisible(top types.Type, f *types.Var, idx []int) bool {
+	obj, index, _ := types.LookupFieldOrMethod(top, true, f.Pkg(), f.Name())
+	if obj != f || len(index) != len(idx) {
+		return false
+	}
+	for k := range idx {
+		if index[k] != idx[k] {
+			return false
+		}
+	}
+	return true
+}
+
 // visibleFields mirrors reflect.VisibleFields for structs with at most one level of embedding by value.
 func (in *Interp) visibleFields(t types.Type, prefix []int, out *[]Value, sfType *types.Struct) {
+	if len(prefix) == 0 {
+		in.vfTop = t
+	}
 	st := t.Underlying().(*types.Struct)
 	for i := 0; i < st.NumFields(); i++ {
 		f := st.Field(i)
 		idx := append(append([]int{}, prefix...), i)
+		if !fieldVisible(in.vfTop, f, idx) {
+			continue // hidden or ambiguous: reflect.VisibleFields leaves it out (and does not descend into it)
+		}
 		idxVals := make([]Value, len(idx))
 		for k, n := range idx {
 			idxVals[k] = mkBV(64, uint64(n))
@@ -267,6 +324,25 @@ func init() {
 			panic(goPanic{msg: "reflect: non-interface type passed to Type.Implements"})
 		}
 		return mkBool(in.implements(t, it))
+	}
+	intrinsics["(*reflect.rtype).NumField"] = func(in *Interp, fn *ssa.Function, a []Value) Value {
+		st, ok := rtypeArg(a[0]).Underlying().(*types.Struct)
+		if !ok {
+			panic(goPanic{msg: "reflect: NumField of non-struct type"})
+		}
+		return mkBV(64, uint64(st.NumFields()))
+	}
+	intrinsics["(*reflect.rtype).Field"] = func(in *Interp, fn *ssa.Function, a []Value) Value {
+		st, ok := rtypeArg(a[0]).Underlying().(*types.Struct)
+		if !ok {
+			panic(goPanic{msg: "reflect: Field of non-struct type"})
+		}
+		i := int(a[1].(Term).U)
+		if i < 0 || i >= st.NumFields() {
+			panic(goPanic{msg: "reflect: Field index out of bounds"})
+		}
+		sfNamed := in.L.prog.ImportedPackage("reflect").Type("StructField").Type()
+		return in.structFieldRec(st, i, []int{i}, sfNamed.Underlying().(*types.Struct))
 	}
 	intrinsics["reflect.VisibleFields"] = func(in *Interp, fn *ssa.Function, a []Value) Value {
 		t := rtypeArg(a[0])
